@@ -3,7 +3,7 @@
    Modelled: _setup (solute total recomputed on EVERY call, RuntimeError without solute, the _nonzero cache (which resets
    _chemical), the N == 1 branch that sets _chemical without touching _nonzero / _index, the ValueError of index(solute) raised AFTER
    _nonzero / _index were stored), __call__(solute, T=T) and __call__(solute, T=T, solubility=x) (which leaves
-   _index = slice(None) behind).  SLE._solve_x is an oracle (its intermediate _update_solubility calls are
+   _index = slice(None) behind and, since /repo 341f38f, forgets _nonzero).  SLE._solve_x is an oracle (its intermediate _update_solubility calls are
    overwritten by the final one: both solute entries are rewritten from _mol_solute and the other flows).
    No proofs in this file. *)
 From V Require Export Common.Num C03.Model.
@@ -26,7 +26,10 @@ Definition sle_setup (islle : list bool) (j : nat) (st : sst) (o : sobj) : sobj 
   let o := mksobj (so_nz o) (so_idx o) (so_chem o) msol in
   if qzerob msol then (o, Some ERuntime) else
   let nz := nz_idx mol in
-  if opt_eqb (list_eqb Nat.eqb) (so_nz o) (Some nz) then (mksobj (so_nz o) (so_idx o) false msol, None)   (* _chemical = None *)
+  if opt_eqb (list_eqb Nat.eqb) (so_nz o) (Some nz) then
+    (* _chemical = None; /repo 341f38f: _solute_gamma_index = index.index(solute_index) is recomputed (ValueError when absent) *)
+    let o := mksobj (so_nz o) (so_idx o) false msol in
+    match pos j (so_idx o) with None => (o, Some EValue) | Some _ => (o, None) end
   else
     let ix := lle_idx islle mol in
     if Nat.eqb (length ix) 1 then (mksobj (so_nz o) (so_idx o) true msol, None)
@@ -60,7 +63,7 @@ Definition sle_call_given (j : nat) (T x : Q) (p : sst * sobj) : (sst * sobj) * 
   let (st, o) := p in
   let st := with_sT st T in
   let m := nthq (s_s st) j + nthq (s_l st) j in
-  let o := mksobj (so_nz o) (seq 0 (length (s_l st))) (so_chem o) m in
+  let o := mksobj None (seq 0 (length (s_l st))) (so_chem o) m in      (* /repo 341f38f: _nonzero = None with _index = slice(None) *)
   match sle_update (so_idx o) j m x st with
   | Ok st' => ((st', o), None)
   | Err e => ((st, o), Some e)
@@ -158,3 +161,33 @@ Definition lle_check_pf (islle : list bool) (rr : Q) (o : lle_oracle) (s : lst) 
   | Ok phi => lle_check islle (mklo true (lo_K o) (Qred phi) (lo_molL o) (lo_top o) (lo_mw o)) s expect raised
   | Err _ => raised
   end.
+
+(* ====================================================================================================
+   Where the VLE finds its rows.  A MaterialIndexer keeps its phases sorted, one row per phase in that order, and answers
+   imol['l'] / imol['g'] (what VLE._setup fetches on EVERY call) through a key -> row-number cache; the cache in use is the
+   class-level one that _set_cache selects for the current (phases, chemicals) pair.  _expand_phases (copy_like / mix_from of material
+   that brings a phase the stream does not have) re-orders the rows IN PLACE for the widened phase tuple and re-selects the cache.
+   Phases are numbers here (their rank in the sorted alphabet 'L' < 'S' < 'g' < 'l' < 's'). *)
+Record ixr := mkixr { ix_ph : list nat; ix_rows : list vec; ix_kc : list (nat * nat) }.
+Fixpoint kc_get (p : nat) (kc : list (nat * nat)) : option nat :=
+  match kc with [] => None | (k, i) :: t => if Nat.eqb k p then Some i else kc_get p t end.
+(* the row the indexer hands out for the key p: through the cache, else through the phase index *)
+Definition row_of (x : ixr) (p : nat) : vec :=
+  match (match kc_get p (ix_kc x) with Some i => Some i | None => pos p (ix_ph x) end) with
+  | Some i => nth i (ix_rows x) []
+  | None => []
+  end.
+(* the row that physically belongs to phase p *)
+Definition row_phys (x : ixr) (p : nat) : vec :=
+  match pos p (ix_ph x) with Some i => nth i (ix_rows x) [] | None => [] end.
+(* a populated cache of the phase tuple phs *)
+Definition kc_for (phs : list nat) : list (nat * nat) := combine phs (seq 0 (length phs)).
+(* _expand_phases to the (sorted) union [all]; n = number of chemicals *)
+Definition expand_phases (x : ixr) (all : list nat) (n : nat) : ixr :=
+  mkixr all
+        (map (fun p => match pos p (ix_ph x) with Some i => nth i (ix_rows x) [] | None => repeat 0 n end) all)
+        (kc_for all).
+(* correspondence: after the widening of a stream with phases phs to the tuple all, the key p hands out [expect]; rows_after = the
+   rows as they physically lie in the indexer afterwards (read by iteration) *)
+Definition expand_key_check (phs all : list nat) (rows_after : list vec) (p : nat) (expect : vec) : bool :=
+  vapproxb (row_of (mkixr all rows_after (ix_kc (expand_phases (mkixr phs [] (kc_for phs)) all 0))) p) expect.
